@@ -30,7 +30,8 @@ Elems == << Obj(<<a_, b_, s_>>, <<IntV(1), IntV(0), S(<<97, 98>>)>>),  Obj(<<a_>
             Obj(<<a_, l_>>, <<S(a_), Arr(<<IntV(1), S(b_)>>)>>),       Obj(<<>>, <<>>),
             Arr(<<Obj(<<a_>>, <<IntV(1)>>), Obj(<<a_>>, <<IntV(3)>>)>>), Arr(<<IntV(1), IntV(2)>>),
             S(<<97, 98>>),                                             IntV(2),
-            Null,                                                      Obj(<<a_, b_>>, <<S(<<120>>), S(<<121>>)>>) >>
+            Null,                                                      Obj(<<a_, b_>>, <<S(<<120>>), S(<<121>>)>>),
+            Obj(<<a_, b_>>, <<Arr(<<>>), Obj(<<>>, <<>>)>>) >>              \* members that exist and hold an empty array / an empty object
 ElemNames == [i \in 1..Len(Elems) |-> <<101>> \o Decimal(i)]
 MainDoc == Obj(<<k_, c_, o_, a_, b_>>, <<IntV(1), Arr(Elems), Obj(ElemNames, Elems), Obj(<<a_, b_>>, <<IntV(5), Arr(<<IntV(6)>>)>>), S(<<120>>)>>)
 ArrDoc == Arr(<<Obj(<<a_, b_>>, <<IntV(1), IntV(2)>>), Arr(<<IntV(1)>>), S(a_), IntV(1), Obj(<<>>, <<>>)>>)
@@ -40,7 +41,10 @@ nilx_ == <<110, 105, 108, 120>>  inx_ == <<105, 110, 120>>  orx_ == <<111, 114, 
 ux_ == <<95, 120>>      \* "_x": a name that begins with the filter-context spelling
 \* (true and false among its members, so that the capitalised literals can be told apart; kept out of the candidates of the
 \*  membership universes, whose equality the statement leaves open)
-KwDoc == Obj(<<nilx_, inx_, notx_, a_, ux_, <<116>>, <<102>>>>, <<IntV(1), Obj(<<orx_, truex_>>, <<IntV(2), IntV(0)>>), IntV(3), IntV(4), IntV(5), Bool(TRUE), Bool(FALSE)>>)
+\* capitalised words that are NOT among the documented capitalised literals (True, False, Null, Nil, None): names like any other
+In_ == <<73, 110>>  Missing_ == <<77, 105, 115, 115, 105, 110, 103>>  Contains_ == <<67, 111, 110, 116, 97, 105, 110, 115>>  Undefined_ == <<85, 110, 100, 101, 102, 105, 110, 101, 100>>  And_ == <<65, 110, 100>>  Not_ == <<78, 111, 116>>
+KwDoc == Obj(<<nilx_, inx_, notx_, a_, ux_, <<116>>, <<102>>, In_, Missing_, Contains_, Undefined_, And_, Not_>>,
+             <<IntV(1), Obj(<<orx_, truex_, In_>>, <<IntV(2), IntV(0), IntV(9)>>), IntV(3), IntV(4), IntV(5), Bool(TRUE), Bool(FALSE), IntV(11), IntV(12), IntV(13), IntV(14), IntV(15), IntV(16)>>)
 DocSeq == <<MainDoc, ArrDoc, IntV(7), Obj(<<a_>>, <<IntV(1)>>), KwDoc>>
 
 ReAB == Cat(Chr(97), Chr(98))
@@ -54,6 +58,8 @@ QuerySet ==
            Q("$", <<Child(SName(nilx_))>>), Q("$", <<Seg(FALSE, <<SName(nilx_), SName(notx_)>>)>>), Q("$", <<Child(SName(inx_)), Child(SName(orx_))>>),
            Q("$", <<Descend(SName(truex_))>>), Q("$", <<Child(SFilter(ETest(QAt(<<Child(SName(orx_))>>))))>>),
            Q("$", <<Child(SName(ux_))>>),
+           Q("$", <<Seg(FALSE, <<SName(In_), SName(Missing_)>>)>>), Q("$", <<Child(SName(Contains_))>>), Q("$", <<Child(SName(Undefined_))>>),
+           Q("$", <<Descend(SName(In_))>>), Q("$", <<Seg(FALSE, <<SName(And_), SName(Not_)>>)>>), Q("$", <<Child(SName(Missing_))>>),
            F(ECmp("==", Self, OLit(Bool(TRUE)))), F(ECmp("!=", Self, OLit(Bool(FALSE)))), F(ECmp("==", OLit(Bool(FALSE)), Self)) }
          \cup {FC(e) : e \in { EAnd(ETest(QAt(<<Child(SName(a_))>>)), ETest(QAt(<<Child(SName(b_))>>))),
                                EOr(ETest(QAt(<<Child(SName(s_))>>)), ECmp("==", At1(a_), OLit(IntV(2)))),
